@@ -9,7 +9,8 @@ LEAN_MODULES = ["C03", "C03b"]
 ASSUMPTIONS = ASSUME_SESSION + ["known finding K1 (second close_loop / execute_new_loop before the innermost _mainloop regained control) is excluded from the blocks/resumes clauses by the history hypotheses WFClose/WFDrain, evaluated by the model per case"]
 RULE = ("[thorough tier adds the small-scope exhaustive enumeration of harness/gen/exhaustive.py: every loop program with a <= 2-action and a <= 1-action handler over a 10-action alphabet, 3 663 programs] loop-mode programs with nesting depth up to 5, sources registered at various levels / nowhere / several, enqueues for outer sources from inner handlers, closes at "
         "every position; generic loop/app sessions; oracle: every handler invocation's level against the routing rule recomputed from the public-API log; execute_new_loop / "
-        "push_screen_modal return with the same levels open as at the call; non-trivial = a signal dispatched at depth >= 2 or routed to a non-active level")
+        "push_screen_modal return with the same levels open as at the call; non-trivial = a signal dispatched at depth >= 2 or routed to a non-active level"
+        ' Later rounds: waiting calls (process_signals(return_after=X)) in nested loops while X signals owned by an enclosing loop are emitted before / during / after the wait (stale tickets); a nothing-enqueued-is-lost monitor over ideal levels.')
 
 
 def gen_c03(rnd, sid):
